@@ -36,7 +36,7 @@ ASSUMPTIONS = [
     "values derived from the packet's own timestamp (e.g. _next_setpoint) are part of the input, so each case keeps one timestamp",
     "ratio keys = the keys fed from hex_to_percent/parse_valve_demand (committed list below); temperature keys likewise",
 ]
-REQUIRED = {"sibling.groups": 200, "decoded": 1000, "order.compared": 1000, "index.checked": 300, "array.compared": 100, "range.checked": 200}
+REQUIRED = {"gateway.pairs": 50, "gateway.messages_held": 100, "sibling.groups": 200, "decoded": 1000, "order.compared": 1000, "index.checked": 300, "array.compared": 100, "range.checked": 200}
 
 DTM = "2024-03-01T12:00:00.000000"
 IDX_KEYS = ("zone_idx", "domain_id", "dhw_idx", "ufh_idx", "ufx_idx", "hvac_id", "other_idx")
@@ -440,8 +440,63 @@ def decode_quiet(dtm: str, line: str):  # type: ignore[no-untyped-def]
         return None
 
 
+def part_gateway(ctx) -> None:
+    """The same clauses for the messages an application receives from a Gateway: a message handed to a handler
+    keeps the payload its own frame carries, whatever arrives next (a controller's zone array comes in two packets,
+    the second of which the gateway merges with the first)."""
+    import asyncio
+
+    from . import harness, vloop
+
+    rng = ctx.rng
+    ctl, ufc = "01:145038", "02:100030"
+    cases = []
+    for _ in range(6 if ctx.quick else 60):
+        n1, n2 = rng.choice((8, 8, 5, 2)), rng.choice((1, 2, 4))
+        el = lambda i: f"{i:02X}10{rng.choice(('01F4', '03E8', '0834'))}{rng.choice(('0834', '0BB8', '0DAC'))}"  # noqa: E731
+        a = "".join(el(i) for i in range(n1))
+        b = "".join(el(n1 + i) for i in range(n2))
+        cases.append([f" I --- {ctl} --:------ {ctl} 000A {len(a) // 2:03d} {a}", f" I --- {ctl} --:------ {ctl} 000A {len(b) // 2:03d} {b}"])
+        c1 = "".join(f"{i:02X}{rng.choice(('01F4', '076C'))}0A2801" for i in range(4))
+        c2 = "".join(f"{4 + i:02X}{rng.choice(('01F4', '076C'))}0A2801" for i in range(rng.choice((1, 2, 4))))
+        cases.append([f" I --- {ufc} --:------ {ufc} 22C9 {len(c1) // 2:03d} {c1}", f" I --- {ufc} --:------ {ufc} 22C9 {len(c2) // 2:03d} {c2}"])
+
+    async def go(loop) -> None:
+        for pair in cases:
+            gap_ms = rng.choice((13, 200, 2500, 4000))
+            lines = [("2024-03-01T12:00:00.000000", f"045  I --- {ctl} --:------ {ctl} 1F09 003 FF073F")]
+            lines += [(f"2024-03-01T12:00:{1 + (k * gap_ms) // 1000:02d}.{(k * gap_ms) % 1000:03d}000", "045 " + fr) for k, fr in enumerate(pair)]
+            held: list[Any] = []
+            gwy = harness.file_gateway(lines, config={"disable_discovery": True})
+            gwy.add_msg_handler(lambda m: held.append((str(m._pkt), canon(m.payload), m)))
+            await asyncio.wait_for(gwy.start(), timeout=30)
+            await vloop.drain(loop)
+            await gwy.stop()
+            ctx.ev()
+            ctx.count("gateway.pairs")
+            for frame, first, msg in held:
+                ctx.count("gateway.messages_held")
+                again = canon(msg.payload)
+                if again != first:
+                    ctx.violate(
+                        f"C05|gateway|{frame.split()[-3]}|payload-of-a-delivered-message-changed-later",
+                        "the payload of a message already delivered to the application changed when a later packet arrived",
+                        {"frame": frame, "when_delivered": first[:300], "later": again[:300], "packets": pair},
+                    )
+                own = try_decode(ctx, DTM, "045 " + frame)
+                if own is not None and frame == pair[0] and canon(own.payload) != first:
+                    ctx.violate(
+                        f"C05|gateway|{frame.split()[-3]}|first-packet-delivered-with-another-payload",
+                        "the first packet of an array was delivered with a payload other than what its frame decodes to",
+                        {"frame": frame, "delivered": first[:300], "decodes_to": canon(own.payload)[:300]},
+                    )
+
+    vloop.run(go)
+
+
 def run(ctx) -> None:
     part_siblings(ctx)  # first: while the process-wide caches are still cold
+    part_gateway(ctx)
     part_lines(ctx)
     part_arrays(ctx)
     part_byte_sweep(ctx)
